@@ -57,6 +57,7 @@ pub fn check_cmd(args: &[String]) -> i32 {
         "C08" => c08(&a),
         "C10" => c10(&a),
         "C14" => c14(&a),
+        "C12" => c12(&a),
         "C13" => c13(&a),
         "C15" => c15(&a),
         p => {
@@ -258,7 +259,34 @@ fn c04(a: &Args) -> Report {
     s.depth -= 1;
     specs.push(s);
     let results = run_specs(&specs, a, &no_known);
-    seq_report("C04", a, "model_checking", results, SEQ_RULE)
+    let mut rep = seq_report("C04", a, "model_checking", results, SEQ_RULE);
+    // interleavings of a data client with a maintenance client
+    let mut sspecs = Vec::new();
+    let maint: Vec<(&str, Vec<COp>)> = vec![
+        ("close-restore", vec![COp::M(Op::TryClose), COp::M(Op::TryRestore)]),
+        ("close-create", vec![COp::M(Op::TryClose), COp::M(Op::TryCreate)]),
+        ("rot", vec![COp::M(Op::Rot)]),
+        ("delete-closed", vec![COp::D { k: 0, ts: 5 }]),
+        ("free", vec![COp::M(Op::FreeExcess)]),
+        ("fsync", vec![COp::M(Op::Fsync)]),
+        ("bg", vec![COp::M(Op::CloseBg), COp::M(Op::RestoreBg)]),
+    ];
+    for (mname, mops) in &maint {
+        for mode in [IoMode::Inplace, IoMode::Background] {
+            let clients = vec![vec![COp::w(0, 10), COp::R(0), COp::D { k: 0, ts: 12 }], mops.clone()];
+            let mut s = SchedSpec::new(&format!("C04/sched/{mname}/{mode:?}"), mode, vec![Op::w(0, 1), Op::Rot, Op::w(1, 2)], clients);
+            s.clock_choices = if *mname == "delete-closed" { 1 } else { 0 };
+            s.bound = if thorough { 3 } else { 2 };
+            s.max_execs = if thorough { 40_000 } else { 2_500 };
+            s.lock_points = thorough;
+            s.read_points = thorough;
+            sspecs.push(s);
+        }
+    }
+    let sres = run_sched_specs(&sspecs, a.threads);
+    let srep = sched_report("C04", a, sres, SCHED_RULE, &|_| None);
+    merge_reports(&mut rep, srep);
+    rep
 }
 
 fn c07(a: &Args) -> Report {
@@ -331,7 +359,41 @@ fn c13(a: &Args) -> Report {
     s.keys = vec![0, 7];
     s.checks = Checks { alive: true, rotation: true, ..Default::default() };
     let results = run_specs(&[s], a, &no_known);
-    seq_report("C13", a, "model_checking", results, SEQ_RULE)
+    let mut rep = seq_report("C13", a, "model_checking", results, SEQ_RULE);
+    // epilogue writers interleaved with the worker, from every lifecycle prefix of depth <= 2
+    let life = [Op::CloseBg, Op::CreateBg, Op::RestoreBg, Op::TryClose, Op::Rot, Op::FreeExcess, Op::d(0, 2)];
+    let mut prefixes: Vec<Vec<Op>> = vec![vec![]];
+    for x in life {
+        prefixes.push(vec![x]);
+        if thorough {
+            for y in life {
+                prefixes.push(vec![x, y]);
+            }
+        }
+    }
+    let mut sspecs = Vec::new();
+    for (i, p) in prefixes.iter().enumerate() {
+        let mode = if i % 2 == 0 { IoMode::Inplace } else { IoMode::Background };
+        let clients = vec![vec![COp::w(7, 10), COp::w(7, 11)], vec![COp::w(7, 12)]];
+        let mut sp = SchedSpec::new(
+            &format!("C13/sched/{}/{mode:?}", p.iter().map(|o| o.short()).collect::<Vec<_>>().join(";")),
+            mode,
+            p.clone(),
+            clients,
+        );
+        sp.wcfg.max_data_in_blob = 2;
+        sp.liveness_check = true;
+        sp.keys = vec![0, 7];
+        sp.bound = 2;
+        sp.max_execs = if thorough { 30_000 } else { 3_000 };
+        sp.lock_points = thorough;
+        sp.read_points = false;
+        sspecs.push(sp);
+    }
+    let sres = run_sched_specs(&sspecs, a.threads);
+    let srep = sched_report("C13", a, sres, SCHED_RULE, &|_| None);
+    merge_reports(&mut rep, srep);
+    rep
 }
 
 fn c15(a: &Args) -> Report {
@@ -816,4 +878,77 @@ fn c14(a: &Args) -> Report {
         o.insert("victims".into(), json!(poll_counts));
     }
     rep
+}
+
+fn c12(a: &Args) -> Report {
+    let thorough = a.tier == "thorough";
+    let alphabet = vec![
+        Op::w(0, 1),
+        Op::Write { k: 1, ts: 2, meta: None, size: 5 * 1024 },
+        Op::d(0, 2),
+        Op::Rot,
+        Op::TryClose,
+        Op::Fsync,
+        Op::Rst,
+    ];
+    let mut specs = Vec::new();
+    for md in [Some(0u64), Some(1), Some(64), Some(10_000), None] {
+        let mut s = SeqSpec::new(&format!("C12/seq/max_dirty={md:?}"), alphabet.clone(), if thorough { 5 } else { 4 });
+        s.wcfg.max_dirty = md;
+        s.checks = Checks { sync: true, outcome: true, ..Default::default() };
+        specs.push(s);
+    }
+    let mut s = specs[2].clone();
+    s.name = "C12/seq/max_dirty=64/background-io".into();
+    s.io_mode = IoMode::Background;
+    specs.push(s);
+    let results = run_specs(&specs, a, &no_known);
+    let mut rep = seq_report("C12", a, "model_checking", results, SEQ_RULE);
+    let mut sspecs = Vec::new();
+    for md in [0u64, 64] {
+        for mode in [IoMode::Inplace, IoMode::Background] {
+            for (cname, clients) in [
+                ("WW", vec![vec![COp::w(0, 10), COp::w(0, 11)]]),
+                ("WW|W", vec![vec![COp::w(0, 10), COp::w(0, 11)], vec![COp::w(1, 12)]]),
+                ("WW|WF", vec![vec![COp::w(0, 10), COp::w(0, 11)], vec![COp::w(1, 12), COp::M(Op::Fsync)]]),
+            ] {
+                let mut s = SchedSpec::new(&format!("C12/sched/max_dirty={md}/{mode:?}/{cname}"), mode, vec![Op::w(1, 1)], clients);
+                s.wcfg.max_dirty = Some(md);
+                s.sync_check = true;
+                s.restart_at_end = false;
+                s.bound = if thorough { 3 } else { 2 };
+                s.max_execs = if thorough { 80_000 } else { 8_000 };
+                s.lock_points = thorough;
+                s.read_points = false;
+                sspecs.push(s);
+            }
+        }
+    }
+    let sres = run_sched_specs(&sspecs, a.threads);
+    let srep = sched_report("C12", a, sres, SCHED_RULE, &|_| None);
+    merge_reports(&mut rep, srep);
+    rep
+}
+
+/// Adds the coverage and findings of `b` (another engine of the same property) to `a`.
+fn merge_reports(a: &mut Report, b: Report) {
+    let num = |v: &serde_json::Value, k: &str| v.get(k).and_then(|x| x.as_u64()).unwrap_or(0);
+    let mut cov = a.coverage.clone();
+    for k in ["states", "transitions", "traces_validated_against_impl", "evaluations", "distinct_nontrivial"] {
+        cov[k] = json!(num(&a.coverage, k) + num(&b.coverage, k));
+    }
+    cov["exhaustive"] = json!(a.coverage["exhaustive"].as_bool().unwrap_or(false) && b.coverage["exhaustive"].as_bool().unwrap_or(false));
+    let mut samples = a.coverage["samples"].as_array().cloned().unwrap_or_default();
+    samples.extend(b.coverage["samples"].as_array().cloned().unwrap_or_default());
+    cov["samples"] = json!(samples);
+    let mut inst = a.coverage["instances"].as_array().cloned().unwrap_or_default();
+    inst.extend(b.coverage["instances"].as_array().cloned().unwrap_or_default());
+    cov["instances"] = json!(inst);
+    cov["rule"] = json!(format!("{} || {}", a.coverage["rule"].as_str().unwrap_or(""), b.coverage["rule"].as_str().unwrap_or("")));
+    a.coverage = cov;
+    a.assumptions.extend(b.assumptions);
+    a.violations.extend(b.violations);
+    a.violations.truncate(10);
+    a.known.extend(b.known);
+    a.machinery_errors.extend(b.machinery_errors);
 }
